@@ -72,16 +72,43 @@ def ensure_gen() -> dict:
         return {"ok": True, "refused": None, "cached": False, "stats": stats, "wall_s": round(time.time() - t0, 2)}
 
 
-def compile_template(name: str, timeout: int = 1800) -> tuple[bool, str]:
-    """Copy tools/templates/<name>.v into build/gen and compile it there (private copy per pid)."""
+def _theories_sha() -> str:
+    fs = []
+    for root, _d, files in os.walk(vlib.THEORIES):
+        fs += [os.path.join(root, f) for f in files if f.endswith(".v")]
+    return vlib.sha_files(sorted(fs))
+
+
+def compile_template(name: str, timeout: int = 1800, deps: tuple = ()) -> tuple[bool, str]:
+    """Compile tools/templates/<name>.v as module NVGen.<name> inside build/gen (so later templates can
+    import its theorems). Cached: the compiled file and its output are reused while the regenerated tables
+    (build/gen is wiped whenever /repo's pgns.py or canboat.json change), the template text and every
+    theory source are unchanged; a failed compilation is never cached."""
+    for d in deps:
+        ok, out = compile_template(d, timeout)
+        if not ok:
+            return False, f"dependency {d} does not compile: " + out[-1500:]
     src = os.path.join(TPL, name + ".v")
-    d = os.path.join(GEN, f"obl_{os.getpid()}")
-    os.makedirs(d, exist_ok=True)
-    dst = os.path.join(d, name + ".v")
-    shutil.copy(src, dst)
-    rc, out = _coqc(dst, timeout)
-    shutil.rmtree(d, ignore_errors=True)
-    return rc == 0, out
+    dst = os.path.join(GEN, name + ".v")
+    key = vlib.sha_files([src, os.path.join(GEN, ".stamp")]) + _theories_sha()
+    kp, op = os.path.join(GEN, name + ".key"), os.path.join(GEN, name + ".out")
+    with open(os.path.join(vlib.BUILD, f".obl_{name}.lock"), "w") as lk:
+        fcntl.flock(lk, fcntl.LOCK_EX)
+        if os.path.exists(kp) and open(kp).read() == key and os.path.exists(os.path.join(GEN, name + ".vo")):
+            return True, open(op).read()
+        for ext in (".vo", ".key", ".out", ".glob", ".vok", ".vos"):
+            try:
+                os.unlink(os.path.join(GEN, name + ext))
+            except FileNotFoundError:
+                pass
+        shutil.copy(src, dst)
+        rc, out = _coqc(dst, timeout)
+        if rc == 0:
+            with open(op, "w") as fh:
+                fh.write(out)
+            with open(kp, "w") as fh:
+                fh.write(key)
+        return rc == 0, out
 
 
 def theorem_names(name: str) -> list[str]:
